@@ -80,7 +80,7 @@ SEQ_OPS = {
 
 
 # ------------------------------------------------------------------ alignments / collections
-ALN = {"a": "ACGTTGCA-GTCCA", "b": "ACGTTGCAAGT-CA", "c": "AC--TGCAAGTCCR", "d": "ACGTTGNAAGTCCA"}
+ALN = {"a": "ACGTTGCA-GTCCA", "b": "--GTTGCAAGT-CA", "c": "AC--TGCAAGTC--", "d": "ACGTTGNAAGTCCA"}
 
 
 def aln_proj(a):
@@ -130,6 +130,7 @@ ALN_OPS = {
     "omit_gap_pos": lambda a: a.omit_gap_pos(),
     "to_rna": lambda a: a.to_rna() if hasattr(a, "to_rna") else a.to_moltype("rna"),
     "take_positions": lambda a: a.take_positions([0, 3, 4, 9, 12]),
+    "modified_termini": lambda a: a.with_modified_termini(),
 }
 COLL_OPS = {
     "take_seqs": lambda a: a.take_seqs(["c", "a", "d"]),
@@ -203,7 +204,9 @@ DARR_OPS = {"row": lambda d: d[["r2", "r1"]] if False else d.take_dimension(0, [
 
 # ------------------------------------------------------------------ maps
 def map_proj(m):
-    d = {"type": type(m).__name__, "parent_length": _norm(m.parent_length), "len": len(m)}
+    d = {"type": type(m).__name__, "parent_length": _norm(m.parent_length), "len": len(m), "termini_unknown": bool(getattr(m, "termini_unknown", False))}
+    if hasattr(m, "spans"):
+        d["span_types"] = [type(s).__name__ for s in m.spans]
     if hasattr(m, "gap_pos"):
         d["gap_pos"] = _norm(m.gap_pos)
         d["cum"] = _norm(m.cum_gap_lengths)
@@ -215,7 +218,7 @@ def map_proj(m):
 def make_indelmap():
     from cogent3 import make_seq
 
-    return make_seq("AC--GTT-AC-G", moltype="dna").parse_out_gaps()[0]
+    return make_seq("--AC--GTT-AC-G-", moltype="dna").parse_out_gaps()[0]
 
 
 def make_featuremap():
@@ -224,7 +227,18 @@ def make_featuremap():
     return FeatureMap.from_locations(locations=[(2, 5), (8, 11)], parent_length=14)
 
 
-IMAP_OPS = {"slice": lambda m: m[2:9], "reversed": lambda m: m.nucleic_reversed()}
+IMAP_OPS = {"slice": lambda m: m[2:9], "reversed": lambda m: m.nucleic_reversed(), "termini_unknown": lambda m: m.with_termini_unknown()}
+
+
+def make_aligned():
+    return make_aln(False).named_seqs["b"]
+
+
+def aligned_proj(a):
+    return {"str": str(a), "name": a.name, "len": len(a), "map": map_proj(a.map), "data": str(a.data)}
+
+
+ALIGNED_OPS = {"slice": lambda a: a[1:12], "termini_unknown": lambda a: a.with_termini_unknown(), "rc": lambda a: a.rc() if hasattr(a, "rc") else a}
 FMAP_OPS = {"reversed": lambda m: m.nucleic_reversed(), "covered": lambda m: m.covered(), "slice": lambda m: m[1:5]}
 
 
@@ -384,6 +398,7 @@ KINDS = {
     "dict_array": (make_darr, {"to_normalized": DARR_OPS["to_normalized"]}, darr_proj),
     "indel_map": (make_indelmap, IMAP_OPS, map_proj),
     "feature_map": (make_featuremap, FMAP_OPS, map_proj),
+    "aligned": (make_aligned, ALIGNED_OPS, aligned_proj),
     "annotation_db": (make_adb, ADB_OPS, adb_proj),
     "lf": (make_lf, LF_OPS, lf_proj),
     "submodel": (make_submodel, {}, static_proj),
